@@ -12,6 +12,7 @@ THEOREMS = [
     ("EG.props.C18", "C18_failures_modify_nothing"),
     ("EG.props.C18", "C18_failure_is_identity_in_spec"),
     ("EG.props.C18", "C18_store_is_sequential_replay"),
+    ("EG.props.C18", "C18_store_is_replay_of_successes"),
     ("EG.props.C18", "C18_refuted_local_per_handle"),
     ("EG.props.C18", "C18_refuted_regrant_revokes"),
 ]
@@ -30,8 +31,10 @@ RULE = ("mx: goroutines on 1-3 members of a real embedded-etcd cluster contend f
         "lease-regrant(+16) "
         "multi-member(+1) has-failed-Lock(+2) separate-handles(+4) >=3 attempts(+8). "
         "api: create/update/delete/get on 1-4 overlapping names through the real handlers, sequential (in-memory cluster), "
-        "concurrent (in-memory cluster with yields) and concurrent on two members of the real cluster, malformed requests; "
-        "class adds 409(+1) kind-change-400(+2) 404(+4) concurrent(+8) second-member(+16). "
+        "concurrent (in-memory cluster with yields) and concurrent on two members of the real cluster, malformed requests, "
+        "object names that are string prefixes of each other, one injected failure of the k-th cluster operation of a "
+        "request (cluster double); "
+        "class adds 409(+1) kind-change-400(+2) 404(+4) concurrent(+8) second-member(+16) fault-hit(+32) cut-short-after-object-write(+64). "
         "non-trivial = at least one attempt / request; distinct = distinct (group, input) hashes among non-trivial cases")
 TRUSTED_BASE = [
     "model coq/model/Mutex.v is hand-written; tied to pkg/cluster/mutex.go and pkg/api/{server,object,cluster}.go by the per-run "
@@ -45,6 +48,8 @@ ASSUMPTIONS = [
     "etcd is linearizable and keys of a live lease are not lost (lease expiry / partition while holding the lock is outside the model)",
     "a Lock() whose tryAcquire Txn times out AFTER the server applied it (leaked key) is not modelled",
     "each cluster.Get/Put/Delete of a handler is one atomic step; the process-local sync.Mutex is atomic",
+    "a failing cluster operation inside a handler (LFault) ends it with ClusterPanic -> 5xx: an object write already done stays, no version is written "
+    "(the code is not transactional there; the theorems state exactly this)",
     "distinct members have distinct names (leases); every attempt is one thread (a goroutine's attempts are sequentially ordered threads)",
 ]
 
@@ -108,8 +113,9 @@ def encode(c):
         ops = []
         for g, lst in enumerate(i.get("gs") or []):
             for k, op in enumerate(lst):
-                x = obs.get((g, k)) or dict(call=0, ret=0, status=-1, ver=-1, kind="", body="")
+                x = obs.get((g, k)) or dict(call=0, ret=0, status=-1, ver=-1, kind="", body="", hit=False)
                 ops.append(Rec(o_mem=Nat(op["m"] % max(1, i.get("members", 1))), o_req=_req(op), o_bad=B(bool(op.get("bad"))),
+                               o_fk=Nat(min(int(op.get("fault") or 0), 9)), o_hit=B(bool(x.get("hit"))),
                                o_call=Z(x["call"]), o_ret=Z(x["ret"]), o_status=Z(x["status"]), o_ver=Z(x["ver"]),
                                o_rkind=S(x.get("kind") or ""), o_rbody=S(x.get("body") or "")))
         fin = o.get("final") or []
@@ -123,7 +129,8 @@ def encode(c):
 
 def distribution(cases):
     d = dict(groups={}, api_modes={}, api_status={}, api_ops={}, mx_members={}, mx_attempts=0, mx_failed_locks=0,
-             mx_sep_handle_cases=0, mx_hold_phases=0, mx_regrant_phases=0, api_requests=0)
+             mx_sep_handle_cases=0, mx_hold_phases=0, mx_regrant_phases=0, api_requests=0, api_faults_injected=0, api_faults_hit=0,
+             api_prefix_name_cases=0)
     for c in cases:
         d["groups"][c["grp"]] = d["groups"].get(c["grp"], 0) + 1
         i, o = c["in"], c["obs"]
@@ -143,7 +150,11 @@ def distribution(cases):
                 for op in lst:
                     k = op["op"] + ("!" + op["bad"] if op.get("bad") else "")
                     d["api_ops"][k] = d["api_ops"].get(k, 0) + 1
+            names = {op["name"] for lst in i.get("gs") or [] for op in lst} | {x["name"] for x in i.get("init") or []}
+            d["api_prefix_name_cases"] += any(a != b and b.startswith(a) for a in names for b in names)
+            d["api_faults_injected"] += sum(1 for lst in i.get("gs") or [] for op in lst if op.get("fault"))
             for x in o.get("ops") or []:
+                d["api_faults_hit"] += bool(x.get("hit"))
                 d["api_requests"] += 1
                 k = str(x["status"])
                 d["api_status"][k] = d["api_status"].get(k, 0) + 1
